@@ -25,6 +25,8 @@ class LeafScenario(Scenario):
                 return False
         if isinstance(test, ast.Compare) and len(test.ops) == 1:
             l, op, r = ast.unparse(test.left), test.ops[0], ast.unparse(test.comparators[0])
+            if l in ("0.0", "0") and r not in ("0.0", "0") and isinstance(op, (ast.Eq, ast.NotEq)):
+                l, r = r, l          # `0.0 == x` reads as `x == 0.0`
             zero = r in ("0.0", "0")
             if zero and isinstance(op, (ast.Eq, ast.NotEq)):
                 val = None
